@@ -284,6 +284,16 @@ class Check:
         self.cov["print_assumptions_closed"] = pr["closed"]
         if forbidden:
             self.broken.append({"kind": "forbidden-construct", "what": "; ".join(forbidden)})
+        if clean and ok and pr["ok"]:
+            # thorough tier: independent re-check of the compiled cone with coqchk, axioms listed with -o
+            mod = "Ergo." + props_file[len("theories/"):-2].replace("/", ".")
+            with Lock("coq"):
+                rcc, outc = sh(["timeout", "2400", "coqchk", "-silent", "-o", "-Q", "theories", "Ergo", mod], cwd=COQ, timeout=2500)
+            m = re.search(r"\* Axioms:(.*?)\n\s*\n\s*\*", outc, re.S)
+            axs = (m.group(1).strip() if m else "?")
+            self.cov["coqchk"] = {"rc": rcc, "module": mod, "axioms": axs}
+            if rcc != 0 or axs != "<none>":
+                self.broken.append({"kind": "coqchk", "what": "coqchk of %s: rc=%d axioms=%s" % (mod, rcc, axs[:300]), "detail": outc[-1500:]})
         if not ok or not pr["ok"]:
             m = re.search(r'File "([^"]+)", line (\d+)[^\n]*\n((?:.*\n?){1,12})', log if not ok else pr["log"])
             self.broken.append({"kind": "proof", "what": "Coq build of the cone of %s failed" % props_file,
@@ -424,7 +434,12 @@ class Check:
         ev = {"property_id": self.prop, "tier": self.tier, "seed": self.seed, "level": level, "coverage": self.cov,
               "assumptions": list(self.assumptions) + list(extra_assumptions), "wall_s": round(time.time() - self.t0, 2),
               "violations": len(self.violations) + (1 if (self.broken and not self.violations) else 0)}
-        with open(os.path.join(VERIF, "evidence", self.prop + ".json"), "w") as f:
+        evdir = os.path.join(VERIF, "evidence")
+        if os.path.realpath(REPO) != "/repo":
+            # development runs against a scratch worktree (seeded changes) do not overwrite the evidence of /repo itself
+            evdir = os.path.join(VERIF, "build", "evidence_scratch")
+            os.makedirs(evdir, exist_ok=True)
+        with open(os.path.join(evdir, self.prop + ".json"), "w") as f:
             json.dump(ev, f, indent=1, sort_keys=True)
         for l in lines:
             print(l)
